@@ -26,6 +26,9 @@ class Boom(Exception):
 
 
 class Node(param.Parameterized):
+    def __len__(self):          # sub-objects are falsy (empty containers): None and "empty" must not be confused
+        return 0
+
     x = param.Integer(default=0, allow_None=True)
     y = param.Integer(default=0, allow_None=True)
     b = param.ClassSelector(class_=param.Parameterized, default=None)
